@@ -38,6 +38,7 @@ with C06.5).
 Fifth round: C03.3 a requested state is stored on every path of Node.set_state and the override of Server forwards every request unless the server already is in that state (shared with C08.6); C03.4 the re-validation pass is found through helpers spliced in at a condition.
 Sixth round: C03.3 every server that came up goes through reload_server and adjust_server_state (shared with C08.5).
 Seventh round: C03.3 the partition of a server is the recorded one (the default only when the record names none; shared with C11.1), and a server whose record was read again keeps its old object only when the fresh one is the same under the same parent (shared with C01.5).
+Eighth round: C03.4 the allocation object a record configures, and its assignments point to, is resolved from the partition the record names at every load (root allocation of self.cell.partitions[..] and get_sub_alloc steps only - no object remembered by name).
 Does NOT decide that a granted expiry never exceeds the reboot time over
 clock advances.
 """
